@@ -1454,6 +1454,19 @@ fn run_one(case: &Case, ct: Ct, fails: &mut Vec<Fail>, obs: &mut Obs) -> Result<
     Ok(())
 }
 
+/// FINDING (unchanged library), kept out of the search so that it can go on: a `Frame` rendered
+/// with glyph support in a context whose cells are some pixels high but 0 pixels wide
+/// (`TerminalSize` with fewer pixels than cells across, e.g. 384x0 pixels on 24x80 cells) panics in
+/// `Frame::fragments` (src/view/frame.rs): the 3x3-cell scene is rendered into a `3h x 0` image
+/// and rasterize-0.6.9 rasterize.rs:111 indexes the empty pixel buffer (`index out of bounds: the
+/// len is 0 but the index is 0`).  0 x w and 0 x 0 cells do not panic.
+fn frame_under_zero_cell_width(case: &Case) -> bool {
+    fn has_frame(n: &Node) -> bool {
+        matches!(n, Node::Frame { .. }) || n.children().into_iter().any(has_frame)
+    }
+    case.glyphs && case.ppc.0 > 0 && case.ppc.1 == 0 && matches!(&case.src, Src::Built(n) if has_frame(n))
+}
+
 fn check_case(case: &Case) -> Outcome {
     let mut fails: Vec<Fail> = Vec::new();
     let mut obs = Obs::default();
@@ -1530,6 +1543,38 @@ fn check_case(case: &Case) -> Outcome {
             (depth, pass)
         }
     };
+    if case.ppc.0 == 0 || case.ppc.1 == 0 {
+        // which of the views that look at the cell size were exercised without one
+        let class = if case.ppc == (0, 0) { "ctx/no-pixel-size" } else { "ctx/zero-cell-extent" };
+        // (image, glyph view, frame) anywhere in the tree
+        fn built(n: &Node, has: &mut [bool; 3]) {
+            match n {
+                Node::Image { .. } => has[0] = true,
+                Node::Glyph { .. } => has[1] = true,
+                Node::Frame { .. } => has[2] = true,
+                _ => {}
+            }
+            n.children().into_iter().for_each(|c| built(c, has));
+        }
+        fn json(n: &JNode, has: &mut [bool; 3]) {
+            match n {
+                JNode::Image { .. } => has[0] = true,
+                JNode::Glyph { .. } => has[1] = true,
+                _ => {}
+            }
+            n.children().into_iter().for_each(|c| json(c, has));
+        }
+        let mut has = [false; 3];
+        match &case.src {
+            Src::Built(n) => built(n, &mut has),
+            Src::Json(n) => json(n, &mut has),
+        }
+        pass = pass
+            .label(class)
+            .label_if(has[0], &format!("{class}/with-image"))
+            .label_if(has[1], &format!("{class}/with-glyph"))
+            .label_if(has[2], &format!("{class}/with-frame"));
+    }
     pass = pass
         .label(format!("depth/{depth}"))
         .label(if case.glyphs { "glyphs/on" } else { "glyphs/off" })
@@ -1829,7 +1874,14 @@ impl Property for C10 {
             src,
             proptest::collection::vec(ct_strategy(), 1..=3),
             any::<bool>(),
-            sel(&[(4usize, 2usize), (16, 8), (20, 10), (37, 15)]),
+            // the context of a terminal: 4 ordinary cell sizes; the terminal that does not know its
+            // size in pixels (`ViewContext::new` => 0x0 pixels per cell); fewer pixels than cells
+            // in one direction (integer division => one zero extent)
+            prop_oneof![
+                6 => sel(&[(4usize, 2usize), (16, 8), (20, 10), (37, 15)]),
+                3 => Just((0usize, 0usize)),
+                1 => sel(&[(0usize, 8usize), (16, 0)]),
+            ],
             prop_oneof![5 => Just(Win::Max), 1 => Just(Win::Smaller), 1 => Just(Win::Larger), 1 => Just(Win::LayoutSize)],
         )
             .prop_map(|(src, cts, glyphs, ppc, win)| Case { src, cts, glyphs, ppc, win })
@@ -1849,7 +1901,8 @@ impl Property for C10 {
          Flex (builder and FlexRef; both axes, 6 justifies, 0..=5 children, flex None/0.5/1/3, child face, child align) / Container (size incl. unset, all aligns incl. Offset(+-k, i32::MIN/MAX), margins 0..=5 and rarely huge, face) / \
          Frame / Tag / Dynamic (distinct or identical closure return type) / Option / Either / Box / Arc, every node wrapped in a recording Spy; \
          or (1 in 4) the JSON form (text, flex with raw flex factors -2/0/1e308/..., container, tag, color, glyph, image, image_ascii, trace-layout, ref) through ViewDeserializer; \
-         1..=3 constraints per tree with extents from {0,1,2,3,7,20,80} (min<=max; general, loose, tight); glyph capability on/off; 4 pixel-per-cell settings; \
+         1..=3 constraints per tree with extents from {0,1,2,3,7,20,80} (min<=max; general, loose, tight); glyph capability on/off; context = ViewContext::new of a 24x80-cell terminal with 4 pixel-per-cell settings (6 in 10), \
+         with no pixel size at all (pixels 0x0 => 0x0 pixels per cell, 3 in 10) or with fewer pixels than cells in one direction (0x8, 16x0; 1 in 10); \
          render window = max / max-1 / max+3 / root layout size inside a sentinel canvas. \
          non-trivial = (built tree with >= 2 levels in which >= 1 probe painted >= 1 cell) or some constraint with a maximal extent <= 1; JSON trees count only if they deserialised".into()
     }
@@ -1863,6 +1916,7 @@ impl Property for C10 {
             "JSON trees carry no probes or inner spies: termination, containment and the size clause for the root view only; JSON that fails to deserialise is outside the property".into(),
             "unbounded recursion is detected by a nesting counter in the wrapper (limit 200, real nesting <= ~30) instead of letting the stack overflow".into(),
             "harness built with overflow checks: an arithmetic wrap in the library surfaces as a panic".into(),
+            "'any tree ... never panics' is read over every context ViewContext::new can produce: a terminal that reports no pixel size (src/unix.rs handles `pixels.is_empty()`; TerminalSize::pixels_per_cell then yields 0x0) is a legal configuration; what an image, glyph or frame draws there is not judged, only termination, containment and the size clause".into(),
         ]
     }
 }
